@@ -124,6 +124,20 @@ def interval(n, env=None):
                 body = [ord(ch) for ch in v[1:-1]] + [0]
                 return (min(body), max(body))
         return type_range(ir.qtype(n))
+    if k == "CallExpr" and isinstance(env, dict) and env.get("__by_id__") is not None and ks and env.get("__depth__", 0) < 3:
+        c = ir.strip(ks[0])
+        tgt = env["__by_id__"].get((c.get("referencedDecl") or {}).get("id")) if c.get("kind") == "DeclRefExpr" else None
+        b = ir.body(tgt) if tgt is not None else None
+        if b is not None:
+            st = ir.kids(b)
+            if len(st) == 1 and st[0].get("kind") == "ReturnStmt" and ir.ekids(st[0]):
+                env2 = dict(env)
+                env2["__depth__"] = env.get("__depth__", 0) + 1
+                iv = interval(ir.ekids(st[0])[0], env2)      # parameters keep their type range: sound for any argument
+                tr = type_range(ir.qtype(n))
+                if iv is not None and tr is not None and tr[0] <= iv[0] and iv[1] <= tr[1]:
+                    return iv
+        return type_range(ir.qtype(n))
     if k == "ConditionalOperator":
         a = interval(ks[1], env)
         b = interval(ks[2], env)
@@ -156,6 +170,15 @@ def for_loop_var_range(for_stmt):
     if a is None or a[0] != a[1]:
         return None
     c = ir.strip(cond)
+    # `for (T i = N; i-- > 0;)`: inside the body i runs over N-1 .. 0
+    if c.get("kind") == "BinaryOperator" and c.get("opcode") in (">", "!=") and (not isinstance(inc, dict) or not inc.get("kind")):
+        l0, r0 = ir.ekids(c)
+        ls0 = ir.strip(l0)
+        rz = interval(r0)
+        if ls0.get("kind") == "UnaryOperator" and ls0.get("opcode") == "--" and ls0.get("isPostfix") and rz == (0, 0):
+            v0 = ir.strip(ir.ekids(ls0)[0])
+            if v0.get("kind") == "DeclRefExpr" and (v0.get("referencedDecl") or {}).get("id") == vd.get("id") and a[0] >= 1:
+                return vd.get("id"), (0, a[0] - 1)
     if c.get("kind") != "BinaryOperator" or c.get("opcode") not in ("<", "<=", "!="):
         return None
     l, r = ir.ekids(c)
